@@ -88,7 +88,7 @@ class World:
             return ['xfail', 0]
         if type(x) is _UnexpectedSuccess:
             return ['uxs', 0]
-        if type(x) is AssertionError and str(x) == 'Forced Test Failure':
+        if type(x) is AssertionError:      # untagged: made by the framework (the forced failure), whatever its wording
             return ['failure', 0]
         return ['unknown-exception', type(x).__name__]
 
@@ -141,7 +141,7 @@ def canon_content(w, c):
     m = re.match(r'^(?:reason-|x)(\d+)$', text)
     if m and c.content_type.type == 'text':
         return ['reason', int(m.group(1))]
-    if text in ('Forced Test Failure', 'no reason given.') and c.content_type.type == 'text':   # framework-made exceptions carry tag 0
+    if c.content_type.type == 'text' and c.content_type.subtype == 'plain' and '\n' not in text.strip():   # framework-made texts carry tag 0, whatever their wording
         return ['reason', 0]
     lines = text.strip().splitlines()
     last = lines[-1] if lines else ''
@@ -158,7 +158,7 @@ def canon_content(w, c):
         t = re.search(r'setup-tag-(\d+)', msg) or re.match(r'^(?:x|reason-|mm)(\d+)$', msg)
         if t:
             tag = int(t.group(1))
-        elif msg == 'Forced Test Failure' or cls == MULTI_CLS:
+        elif cls == 'failure' or cls == MULTI_CLS:      # an AssertionError without a harness tag: the forced failure, whatever its wording
             tag = 0
         else:
             return ['tb', [cls, 'unknown-tag']]
